@@ -21,7 +21,7 @@
 Require Import Cherab.Common.Qx.
 
 Inductive form := F64 | I32 | I64 | U8 | FBool | F32 | FList | FFortran | FStrided | FReadonly.
-Inductive gform := GNone | GPyFloat | GPyInt | GNpFloat64 | GNpFloat32 | GNpInt64 | G0d | GArr (f : form).
+Inductive gform := GNone | GPyFloat | GPyInt | GPyBool | GNpFloat64 | GNpFloat32 | GNpInt64 | G0d | GArr (f : form).
 Inductive sform := SPyFloat | SPyInt | SNpFloat64 | SNpFloat32 | SNpInt64 | S0d.
 Inductive outcome := Accept | ErrValueE | ErrTypeE | ErrAttributeE | ErrOtherE.
 
@@ -42,7 +42,7 @@ Definition memoryview_double (f : form) : outcome :=
 
 Definition guess_outcome (g : gform) : outcome :=
   match g with
-  | GNone | GPyFloat | GPyInt | GNpFloat64 => Accept
+  | GNone | GPyFloat | GPyInt | GPyBool | GNpFloat64 => Accept
   | GNpFloat32 | GNpInt64 => ErrTypeE
   | G0d => ErrValueE
   | GArr FList => ErrTypeE
